@@ -37,6 +37,7 @@ SHARDS = {"quick": 16, "thorough": 16}
 MIN_REACH = {
     "crops_named_by_a_relative_parent_dir": {"quick": 6, "thorough": 60},
     "array_scripts_for_a_dozen_and_more_batches": {"quick": 3, "thorough": 4},
+    "crops_whose_directory_is_given_as_a_path_object": {"quick": 8, "thorough": 80},
     "scripts_for_a_project_directory_with_pattern_characters": {"quick": 5, "thorough": 40},
     "scripts_generated": {"quick": 40, "thorough": 400},
     "script_executions": {"quick": 35, "thorough": 400},
@@ -296,6 +297,11 @@ def run_case(ctx, case):
                 os.chdir(os.path.dirname(tmp))
                 pdir = os.path.basename(tmp) if case["idx"] % 2 else os.path.join(".", os.path.basename(tmp))
                 ctx.count("crops_named_by_a_relative_parent_dir")
+            if case["idx"] % 3 == 1:
+                # the crop's directory is given as a pathlib.Path (absolute, or relative like the str above)
+                import pathlib
+                pdir = pathlib.Path(pdir)
+                ctx.count("crops_whose_directory_is_given_as_a_path_object")
             c2 = xyzpy.Crop(name=NAME, parent_dir=pdir)
             if case["via_method"]:
                 script = getattr(c2, "gen_%s_script" % schl)(batch_ids=ids, mode=case["mode"], **opts)
